@@ -158,7 +158,12 @@ def r3(ctx, rep):
             rows[last_seg(str(pat_head(a["pat"])))] = show(a["body"])
     rep.check(rows.get("Redshift") == "redshift_keywords()" and rows.get("_") == "empty_keywords()", "dialect-table", f"the Redshift table must be consulted for Redshift only; found {rows}", file=d["file"], line=d["l"], fn=d["path"])
     rk = syn.fn("keywords::redshift_keywords", crate="prqlc")
-    rep.check("m.extend(REDSHIFT_KEYWORDS)" in show_stmts_deep(rk["body"]), "redshift-source", "redshift_keywords must be built from REDSHIFT_KEYWORDS", file=rk["file"], line=rk["l"], fn=rk["path"])
+    # by role: the only table mentioned in the function that fills the Redshift set is the Redshift table (extend / iter().collect() / from_iter ..),
+    # and no filtering adapter stands between the table and the set
+    tabs = sorted({last_seg(n["p"]) for n in walk(rk["body"]) if n.get("k") == "path" and n["p"].isupper() is False and last_seg(n["p"]).endswith("_KEYWORDS")} |
+                  {last_seg(n["p"]) for n in walk(rk["body"]) if n.get("k") == "path" and last_seg(n["p"]).isupper() and "KEYWORDS" in last_seg(n["p"])})
+    dropping = [n["m"] for n in walk(rk["body"]) if n.get("k") == "mcall" and n["m"] in ("filter", "filter_map", "skip", "take", "step_by", "skip_while", "take_while", "retain", "remove", "truncate", "pop")]
+    rep.check(tabs == ["REDSHIFT_KEYWORDS"] and not dropping, "redshift-source", f"redshift_keywords must be built from the whole of REDSHIFT_KEYWORDS (tables mentioned: {tabs}, dropping adapters: {dropping})", file=rk["file"], line=rk["l"], fn=rk["path"])
 
 
 def show_stmts_deep(node):
